@@ -556,7 +556,22 @@ impl UDirector {
         self.sched.str("R");
         self.begin(format!("return u{}", id));
         self.world().locs[id as usize] = Loc::Returning;
-        let r = catch_unwind(AssertUnwindSafe(move || drop(o)));
+        // every fourth return happens while the holder is unwinding from a panic of its own
+        let panicking = (id as usize + self.held.len()) % 4 == 3;
+        let r = if panicking {
+            self.world().ev("  (the holder panics: the object is dropped by the unwinding)".into());
+            let r = catch_unwind(AssertUnwindSafe(move || {
+                let _o = o;
+                std::panic::panic_any(vh_common::InjectedPanic(5));
+            }));
+            match r {
+                Err(p) if p.downcast_ref::<vh_common::InjectedPanic>().is_some() => Ok(()),
+                Err(p) => Err(p),
+                Ok(()) => Ok(()),
+            }
+        } else {
+            catch_unwind(AssertUnwindSafe(move || drop(o)))
+        };
         let mut w = self.world();
         if r.is_err() {
             w.viol(&["C12", "*"], "return_panicked", format!("returning u{} panicked", id));
